@@ -10,7 +10,7 @@ m = {
  "setup_cmd": "./setup.sh",
  "hooks": {
   "guard": "verif",
-  "enable": "contracts live in comment-only files <pkg>/contracts_verif.go with `//go:build verif`; gvc reads them as text and loads /repo through go/packages with an in-memory overlay (loop markers, spec-function prelude, SRID stub); nothing is compiled into the product with or without the tag",
+  "enable": "contracts live in comment-only files <pkg>/contracts_verif.go with `//go:build verif`; gvc reads them as text and loads /repo through go/packages with an in-memory overlay (loop markers, spec-function prelude, SRID stub) and the build tag verif; besides the comment-only contract files, <pkg>/roundtrip_verif.go files (same build tag) hold small harness functions whose postconditions state round-trip laws over the contracts of the real functions; they are never called and are not compiled without the tag",
   "baseline_off_cmd": "for m in $(cat /w/out/gomods.txt); do MF=$(cd /repo/$m && . /w/out/goenv.sh && gomodflag); (cd /repo/$m && go test $MF -json -vet=off -count=1 -timeout 25m ./...); done",
   "source_commits": hooks,
   "add_only": True,
